@@ -37,7 +37,7 @@ def body_history(case, ctx):
     ctx.label(*gen.shape_labels(case["lens"]), "depth:%d" % len(case["steps"]), "reads:%d" % min(len(case["reads"]), 4))
     n = len(case["steps"])
     reads = [[p % n, v, k] for p, v, k in case["reads"]]
-    if any(v == "step" and k[0] in ("assign", "fill", "maskassign", "assign-from") for _, v, k in reads):
+    if any(v == "step" and k[0] in ("assign", "fill", "maskassign", "assign-from", "rowwrite") for _, v, k in reads):
         raise AssertionError("a writer was generated as a read")   # harness error, cannot happen with READ_OP
     it, landed = run_program(case, "reads", ctx, reads=reads)
     ctx.nt(landed > 0)
@@ -58,8 +58,18 @@ def body_twin_read(case, ctx):
     ctx.nt(landed > 0)
 
 
+CSTEP = st.tuples(st.one_of(st.none(), st.integers(-4, 4)), st.one_of(st.none(), st.none(), st.integers(-4, 4)), st.sampled_from([-1, -1, -2, 2, 3, None])).map(
+    lambda t: ["s", t[0], t[1], t[2]])
+
+
 @st.composite
 def twin_read_case(draw, tier):
+    if draw(st.integers(0, 2)) == 0:
+        # stacked stepped column slices: a column-sliced selection is column-sliced again (world B looks at it in between)
+        rs = st.one_of(st.just(["s", None, None, None]), c06.SL, st.tuples(st.integers(-3, 3), st.booleans()).map(lambda t: ["i", t[0], t[1]]))
+        steps = [["index", 0, draw(st.one_of(st.just(["s", None, None, None]), c06.SL)), draw(CSTEP)], ["index", 1, draw(rs), draw(CSTEP)]]
+        steps += draw(st.lists(c06.OBSERVER, max_size=1))
+        return {"lens": draw(gen.lengths(tier, min_rows=1, max_rows=5)), "steps": steps, "k": 1, "read": draw(st.sampled_from(READ_KINDS))}
     base = draw(c06.twin_case(tier))
     k = sum(1 for s_ in base["steps"] if s_[0] == "index" and s_ is not base["steps"][-1])
     k = 0
